@@ -104,6 +104,15 @@ var tokenTables = [][]float64{
 	{0, -1, math.Copysign(0, -1), 5e-324, 0.1, 0.2, 0.30000000000000004, 90, 123.456, 1.7976931348623157e308},
 }
 
+func init() {
+	// tokens 10..63 (used by the large documents of Gen_Doc): valid as longitude and latitude, increasing
+	for id := 10; id < 64; id++ {
+		tokenTables[0] = append(tokenTables[0], float64(id))
+		tokenTables[1] = append(tokenTables[1], -80+float64(id-10)*2.5)
+		tokenTables[2] = append(tokenTables[2], 0.40625+float64(id-10)*0.125)
+	}
+}
+
 // spell writes value v in one of several JSON spellings that decode to the same float64
 func spell(v float64, rng *rand.Rand) string {
 	plain := strconv.FormatFloat(v, 'f', -1, 64)
